@@ -15,7 +15,7 @@ import (
 // sizes, so a size that is off by the type byte shifts every later offset.
 
 func init() {
-	register(&Rule{ID: "R10.3", Props: []string{"C10", "C08"}, Floor: 23,
+	register(&Rule{ID: "R10.3", Props: []string{"C10", "C08"}, Floor: 16,
 		Doc: "encoder size accounting: on every successful return of an internal/encode function the reported size equals the sum of its buffer.Grow arguments and of the sizes reported by the encoders it called on the same buffer",
 		Run: runR10_3})
 }
